@@ -91,6 +91,49 @@ def p8_extra(mod, tree, src):
             out.append('Definition root_detection_kind : Z := %d.\n' % root_shapes[ast.dump(tests[0])])
     except Exception as e:  # noqa
         out.append(_fail('root_detection_kind', 'get_root_include_path_%s' % type(e).__name__))
+    # what process_includes yields for the lines of an include target: 0 = `yield line` at both sites,
+    # 1 = `yield line if line.endswith(b'\\n') else line + b'\\n'` at both sites
+    try:
+        f = P.find_function(tree, 'process_includes')
+        ys = []
+        for n in P.ordered_nodes(f):
+            if isinstance(n, ast.For) and isinstance(n.target, ast.Name) and n.target.id == 'line' \
+                    and not (isinstance(n.iter, ast.Name) and n.iter.id == 'lualines'):
+                ys.append([ast.dump(b) for b in n.body])
+        y0 = [ast.dump(ast.parse('yield line').body[0])]
+        y1 = [ast.dump(ast.parse("yield line if line.endswith(b'\\n') else line + b'\\n'").body[0])]
+        if len(ys) == 2 and all(y == y0 for y in ys):
+            out.append('Definition include_newline_kind : Z := 0.\n')
+        elif len(ys) == 2 and all(y == y1 for y in ys):
+            out.append('Definition include_newline_kind : Z := 1.\n')
+        else:
+            out.append(_fail('include_newline_kind', 'include_yield_shape'))
+    except Exception as e:  # noqa
+        out.append(_fail('include_newline_kind', 'process_includes_%s' % type(e).__name__))
+    # which lines of an included cart are offered to lines_for_tab: 0 = the chunks of inc_game.lua.to_lines(),
+    # 1 = the text lines of the joined code (io.BytesIO(b''.join(inc_game.lua.to_lines())))
+    try:
+        f = P.find_function(tree, 'process_includes')
+        nodes = P.ordered_nodes(f)
+        loops = [n for n in nodes if isinstance(n, ast.For) and isinstance(n.iter, ast.Call)
+                 and isinstance(n.iter.func, ast.Name) and n.iter.func.id == 'lines_for_tab']
+        kind = None
+        if len(loops) == 1 and len(loops[0].iter.args) == 2:
+            a0 = ast.dump(loops[0].iter.args[0])
+            if a0 == ast.dump(ast.parse('inc_game.lua.to_lines()', mode='eval').body):
+                kind = 0
+            elif a0 == ast.dump(ast.parse('inc_code', mode='eval').body):
+                asg = [n for n in nodes if isinstance(n, ast.Assign) and len(n.targets) == 1
+                       and isinstance(n.targets[0], ast.Name) and n.targets[0].id == 'inc_code']
+                want = ast.dump(ast.parse("inc_code = io.BytesIO(b''.join(inc_game.lua.to_lines()))").body[0])
+                if len(asg) == 1 and ast.dump(asg[0]) == want:
+                    kind = 1
+        if kind is None:
+            out.append(_fail('include_cart_lines_kind', 'include_cart_lines_shape'))
+        else:
+            out.append('Definition include_cart_lines_kind : Z := %d.\n' % kind)
+    except Exception as e:  # noqa
+        out.append(_fail('include_cart_lines_kind', 'process_includes_%s' % type(e).__name__))
     return ''.join(out)
 
 
